@@ -291,6 +291,7 @@ def c03(run, scratch):
 def c04(run, scratch):
     t = run.tier == "thorough"
     retrace_mc(run, scratch, "names_thorough" if t else "names_quick", "lookup", workers=14 if t else 10)
+    retrace_mc(run, scratch, "ambig_thorough" if t else "ambig_quick", "lookup", workers=14 if t else 10)
     retrace_mc(run, scratch, "records_thorough" if t else "records_quick", "lookup", workers=14 if t else 10)
     retrace_trace(run, scratch, "Trace_Retrace_lookup", "lookup", 120 if t else 30, 300 if t else 120, SMALL_CORPUS,
                   workers=14 if t else 10)
@@ -306,8 +307,8 @@ def c02(run, scratch):
     expect_counterexample(run, scratch, "MC_Builder", "MC_Builder_pinned_header.cfg", "the ignored valueless sourceFile header")
     mc_builder(run, scratch, "mapper", "mapper variant (no parameter index) of the builder machine = declarative index")
     mc_builder(run, scratch, "cache" if t else "cache_quick", "cache-writer variant of the builder machine = declarative index")
-    for cfg in (["blocks_thorough", "files_thorough", "records_thorough", "names_quick", "entries_quick"] if t else
-                ["blocks_quick", "files_quick", "names_quick"]):
+    for cfg in (["blocks_thorough", "files_thorough", "records_thorough", "names_quick", "entries_quick", "ambig_thorough"] if t else
+                ["blocks_quick", "files_quick", "names_quick", "ambig_quick"]):
         retrace_mc(run, scratch, cfg, "all", workers=14 if t else 10)
     retrace_trace(run, scratch, "Trace_Retrace_all", "all", 300 if t else 60, 300 if t else 150, SMALL_CORPUS,
                   workers=14 if t else 10)
@@ -322,7 +323,8 @@ def _replay_retrace(run, scratch, rec):
 
 
 for _k in ["entries1", "entries_quick", "entries_thorough", "files_quick", "files_thorough", "blocks_quick",
-           "blocks_thorough", "records_quick", "records_thorough", "names_quick", "names_thorough"]:
+           "blocks_thorough", "records_quick", "records_thorough", "names_quick", "names_thorough", "ambig_quick",
+           "ambig_thorough"]:
     REPLAYERS["MC_Retrace_" + _k] = _replay_retrace
 
 
